@@ -101,8 +101,59 @@ def fifo_subcheck(ctx):
     return out
 
 
+U32 = 1 << 32
+
+
+def gen_ciq(rng, cid):
+    """random pop_left / pop_right programs on one contiguous_index_queue (same grammar as checks/C11.py)"""
+    k = rng.weighted([(1, 1), (2, 4), (3, 4), (4, 2)])
+    size = rng.weighted([(0, 1), (1, 3), (2, 3), (3, 3), (5, 3), (8, 2), (13, 1)])
+    first = rng.weighted([(0, 4), (rng.below(1000), 3), (U32 - 1 - size - rng.below(3), 2), (rng.below(U32 - 100), 1)])
+    lines = [f'case {cid} first={first} last={first + size} seed={rng.below(1 << 30)} strat={rng.weighted([(0, 5), (1, 3), (2, 2)])}']
+    for t in range(k):
+        ops = [rng.weighted([('popl', 3), ('popr', 3)]) for _ in range(1 + rng.below(5))]
+        if rng.below(3) == 0:
+            ops = [ops[0]] * len(ops)
+        lines.append(f'thread {t}: ' + ' ; '.join(ops) + ' ;')
+    lines.append('endcase')
+    return '\n'.join(lines)
+
+
+def iq_subcheck(ctx):
+    """contiguous index queue (the third container C17 names): E1 controlled schedules of the real
+    contiguous_index_queue.hpp replayed through the Lean acceptor `iq` (theorems Props/C17Index.lean)."""
+    from vlib import compile_harness
+    ok, hbin, hlog = compile_harness('e1_ciq', 'e1/ciq.cpp', 'hooks', '-O1')
+    if not ok:
+        p = write_replay('C17', f"iq-build-failure-{ctx['seed']}.txt", hlog)
+        return {'violations': [f'VIOLATION property=C17 replay={p} no-failing-input-found'], 'explanation': 'index queue harness failed to build'}
+    if ctx['replay']:
+        return {}
+    n = 20000 if ctx['tier'] == 'thorough' else 1500
+    cases = [gen_ciq(ctx['rng'], f"iq{ctx['seed']}n{i}") for i in range(n)]
+    res = run_e1(hbin, 'iq', cases, tag='C17iq')
+    bad = [(classify(r), c, r) for c, r in zip(cases, res) if classify(r) != 'pass']
+    out = {'evaluations': n, 'validated': n - len(bad), 'disagreements': len([b for b in bad if b[0] == 'tie']),
+           'explanation': f'index queue sub-check: {n} E1 cases, {len(bad)} not accepted; cases with a failed CAS: ' + str(sum(1 for r in res if ' ciq.cas ' in r['raw']))}
+    viol = []
+    mon = [b for b in bad if b[0] == 'monitor']
+    pick = (mon or bad)[:1]
+    for k, c, r in pick:
+        what = r['verdict'].split('monitors FAIL:')[-1].strip() if 'monitors FAIL' in r['verdict'] else r['verdict']
+        p = write_replay('C17', f"iq-{k}-{ctx['seed']}.json", {'property': 'C17', 'kind': k, 'part': 'index queue', 'what': what, 'case': c,
+                         'impl_history': r['raw'], 'model_verdict': r['verdict'], 'not_accepted': len(bad),
+                         'rerun_cmd': f'cd {HERE} && ./check C11 --replay <this file>'})
+        viol.append(f'VIOLATION property=C17 replay={p}' + ('' if k == 'monitor' else ' no-failing-input-found'))
+    out['violations'] = viol
+    return out
+
+
 def extras(ctx):
     a, f = aba_regression(ctx), fifo_subcheck(ctx)
+    q = iq_subcheck(ctx)
+    a = {'violations': a.get('violations', []) + q.get('violations', []), 'evaluations': a.get('evaluations', 0) + q.get('evaluations', 0),
+         'validated': a.get('validated', 0) + q.get('validated', 0), 'disagreements': a.get('disagreements', 0) + q.get('disagreements', 0),
+         'explanation': '; '.join(x for x in (a.get('explanation', ''), q.get('explanation', '')) if x)}
     return {'violations': a.get('violations', []) + f.get('violations', []),
             'evaluations': a.get('evaluations', 0) + f.get('evaluations', 0),
             'validated': a.get('validated', 0) + f.get('validated', 0),
@@ -148,10 +199,10 @@ e1check.run(dict(
     # the same directed schedule is a regression test (aba_regression)
     findings=([] if REPAIRED else [dict(id='aba-link', case=ABA_CASE, signature='(duplicate)')]),
     extra_check=extras,
-    props=['C17', 'C17Fifo'],
+    props=['C17', 'C17Fifo', 'C17Index'],
     quick=3000, thorough=250000, extra=20000, libs='-latomic',
     rule='random programs (1-4 threads, 1-5 ops each over push_left/right, pop_left/right on one deque, or push(v,other_end)/pop(v,steal) on a lifo/abp_fifo/abp_lifo/fifo back-end), freelist pre-allocation 1-8 nodes, PRNG schedules (uniform / priority / sticky) over the hook points before every anchor load/compare/CAS, link load/store/CAS, alloc and free; the container is drained at the end and compared with the model chain; non-trivial = an anchor CAS failed or a stabilisation link CAS ran; distinct = distinct (program, schedule seed) text',
-    assumptions=['the contiguous index queue clauses of C17 are covered by Props/C17Index.lean (built with C11), not by this check',
+    assumptions=['the contiguous index queue clauses of C17 are covered by Props/C17Index.lean, audited here, and by an E1 sub-check of the real contiguous_index_queue.hpp against the acceptor `iq` (the same tie also runs in C11)',
                  'freelist (boost freelist_stack) modelled as an atomic allocate/deallocate of node identities; anchor and link tags modelled as unbounded naturals (16-bit in the code)',
                  'the FIFO back-end wraps the third-party moodycamel ConcurrentQueue: its algorithm is an assumption, stated as the Lean spec Fifo.QSpec (at-most-once pop per push, a pop that nothing overlaps succeeds on a non-empty queue, per-producer FIFO when no other dequeue is in flight) and tested on the real queue with real threads (checks/C17F.py); the wrapper (lockfree_fifo_backend, thread_queue counter protocol, move loop) is proved to preserve the spec (Props/C17Fifo.lean)',
                  ('this tree carries the repair of the link-tag ABA (alloc_node/push_* keep the link tags across recycling): the unrestricted theorems C17_deque_fixed_* apply (model Deque.stepG true); the directed schedule of the finding is replayed as a regression and thread 0\'s late link CAS must fail'
